@@ -27,6 +27,8 @@ def standard_ops(nb, rng):
         b = max(0, min(b, last - n + 1))
         ops += [O('read', blk=b, n=n), O('write', blk=b, n=n), O('read', blk=b, n=n)]
     ops += [O('write', blk=5, n=1), O('write', blk=6, n=2), O('read', blk=5, n=3), O('read', blk=4, n=1), O('read', blk=8, n=1)]
+    # empty transfers (a slice of no blocks), each followed by an ordinary call
+    ops += [O('read', blk=7, n=0), O('read', blk=7, n=1), O('write', blk=7, n=0), O('write', blk=7, n=1), O('read', blk=7, n=2)]
     return ops
 
 def healthy(seed, quick):
@@ -77,6 +79,12 @@ def misbehaving(seed, quick):
                            'cmd12': [O('read', blk=1, n=2)], 'acmd23': [O('write', blk=1, n=2)]}.get(cmd, [O('read', blk=1, n=1)])
                     pre = [] if cmd in ('cmd58', 'acmd41', 'cmd8', 'cmd55') else None
                     add('%s-%s' % (cmd, what), kind, crc, [dict(when=cmd, nth=1, what=what)], tgt, pre=pre)
+            # small acquire_retries budgets (0 and 1) with a reset that gets no answer / an error answer once, twice, always
+            for retries in (0, 1, 2):
+                for nfail in (1, 2, 3):
+                    for what in ('silent', 'r1err'):
+                        add('retry%d-%s%d' % (retries, what, nfail), kind, crc, [dict(when='cmd0', nth=k, what=what) for k in range(1, nfail + 1)],
+                            [O('read', blk=1, n=1)], pre=[], extra=dict(retries=retries))
             add('badecho', kind, crc, [dict(when='cmd8', nth=n, what='badecho') for n in range(1, 3)], [O('read', blk=1, n=1)], pre=[])
             add('neverready', kind, crc, [], [O('read', blk=1, n=1)], pre=[], timing=dict(resp=1, tok=2, busy=3, acmd41=1000000))
             # data blocks
